@@ -254,11 +254,15 @@ def run_property(pid: str, tier: str, seed: int) -> int:
 
 
 def match_known(v, known):
+    """A recorded finding suppresses exactly the failures it describes: the obligation name, or the bounded
+    clause together with every listed marker of the failing input / history.  Anything else is reported."""
+    blob = json.dumps(v.get("input"), default=str, sort_keys=True)
     for k in known:
         if k.get("obligation") and k["obligation"] == v["name"]:
             return k
-        if k.get("check") and k["check"] == v["name"] and k.get("input_key") and k["input_key"] in json.dumps(v.get("input"), default=str):
-            return k
+        if k.get("check_prefix") and str(v["name"]).startswith(k["check_prefix"]):
+            if all(m in blob for m in k.get("input_contains", [])):
+                return k
     return None
 
 
